@@ -4,7 +4,7 @@ from concurrent.futures import ThreadPoolExecutor
 
 import vlib
 
-QUICK = [("Selection.cfg", 240), ("SelectionTriples.cfg", 240)]
+QUICK = [("Selection.cfg", 400), ("SelectionTriples.cfg", 400)]
 THOROUGH = QUICK + [("SelectionThorough.cfg", 900), ("SelectionTriplesThorough.cfg", 900)]
 
 
